@@ -21,12 +21,20 @@ fn sems_for(n: usize) -> Vec<&'static str> {
     v
 }
 
-fn statuses(af: &AAFramework<usize>, sem: &str, kind: &str, args: &[usize]) -> Vec<String> {
+/// the encoder for this (semantics, query kind) under encoder choice `c` (0 = auxiliary variables, 1 = exponential, 2 = hybrid where the
+/// semantics has that choice); the exponential one is not used on presentations where it needs more than 2*10^5 clauses for one argument
+fn enc_choice(af: &AAFramework<usize>, sem: &str, kind: &str, c: usize) -> &'static str {
+    let v = crate::stat::encoders_for(sem, kind);
+    let e = v[c % v.len()];
+    if e.starts_with("exp") && crate::stat::exp_cost(af) > 200_000.0 { v[0] } else { e }
+}
+
+fn statuses(af: &AAFramework<usize>, sem: &str, kind: &str, args: &[usize], c: usize) -> Vec<String> {
     args.iter()
         .map(|a| {
             let ctl = Ctl::new(false, vec![]);
             ctl.borrow_mut().keep_clauses = false;
-            let enc = crate::stat::encoders_for(sem, kind)[0];
+            let enc = enc_choice(af, sem, kind, c);
             let o = run_query(af, sem, kind, &[*a], false, enc, &ctl);
             match (o.st, o.panic) {
                 (Some(true), _) => "yes".to_string(),
@@ -37,10 +45,10 @@ fn statuses(af: &AAFramework<usize>, sem: &str, kind: &str, args: &[usize]) -> V
         .collect()
 }
 
-fn one_ext(af: &AAFramework<usize>, sem: &str) -> (bool, Vec<usize>, bool) {
+fn one_ext(af: &AAFramework<usize>, sem: &str, c: usize) -> (bool, Vec<usize>, bool) {
     let ctl = Ctl::new(false, vec![]);
     ctl.borrow_mut().keep_clauses = false;
-    let enc = crate::stat::encoders_for(sem, "SE")[0];
+    let enc = enc_choice(af, sem, "SE", c);
     let o = run_query(af, sem, "SE", &[], false, enc, &ctl);
     match o.ext {
         Some(e) => (true, e.iter().map(|p| p.0).collect(), o.panic.is_some()),
@@ -99,33 +107,51 @@ pub fn cmd_meta(a: &Args) {
         s_att.sort();
         s_att.dedup();
         let s_af = afio::build_compact(&AfSpec { n: n + k, att: s_att, tag: "pad_sinks".into() });
+        // encoder choices: all three on frameworks of at most 16 arguments, one (in rotation) beyond; both runs of a pair use the same one
+        let choices: Vec<usize> = if n <= 16 { vec![0, 1, 2] } else { vec![idx % 3] };
+        for (ci, c) in choices.iter().enumerate() {
+        let c = *c;
         let mut per_sem: Vec<Value> = vec![];
         for sem in &sems {
+            if ci > 0 && crate::stat::encoders_for(sem, "DC").len() == 1 && crate::stat::encoders_for(sem, "DS").len() == 1 {
+                continue; // no encoder to choose for this semantics: already run
+            }
             for kind in ["DC", "DS"] {
-                let b = statuses(&base, sem, kind, &sample);
+                let b = statuses(&base, sem, kind, &sample, c);
                 for (rel, af2, s2) in [("perm", &p_af, &p_sample), ("attdup", &d_af, &sample), ("union_st", &u_af, &sample), ("union_nost", &w_af, &sample)] {
-                    let o = statuses(af2, sem, kind, s2);
+                    let o = statuses(af2, sem, kind, s2, c);
                     lines.push(json!({"ev": "pair", "rel": rel, "sem": sem, "kind": kind, "args": sample, "base": b, "other": o}).to_string());
                 }
                 if k > 0 && ["GR", "CO", "PR", "ID", "ST"].contains(sem) {
-                    let o = statuses(&s_af, sem, kind, &sample);
+                    let o = statuses(&s_af, sem, kind, &sample, c);
                     lines.push(json!({"ev": "pair", "rel": "pad_sinks", "sem": sem, "kind": kind, "args": sample, "base": b, "other": o}).to_string());
                 }
                 per_sem.push(json!({"sem": sem, "kind": kind, "st": b}));
             }
         }
         // cross-semantics consistency and polynomial necessary conditions on the returned sets
-        let gr = one_ext(&base, "GR");
-        let st = one_ext(&base, "ST");
-        let pr = if n <= 120 { one_ext(&base, "PR") } else { (false, vec![], false) };
-        let id = if n <= 50 { one_ext(&base, "ID") } else { (false, vec![], false) };
-        let sst = if n <= 50 { one_ext(&base, "SST") } else { (false, vec![], false) };
-        let stg = if n <= 50 { one_ext(&base, "STG") } else { (false, vec![], false) };
+        if ci > 0 {
+            // the statuses of the semantics without an encoder choice are those of the first round
+            for sem in &sems {
+                if crate::stat::encoders_for(sem, "DC").len() == 1 && crate::stat::encoders_for(sem, "DS").len() == 1 {
+                    for kind in ["DC", "DS"] {
+                        per_sem.push(json!({"sem": sem, "kind": kind, "st": statuses(&base, sem, kind, &sample, 0)}));
+                    }
+                }
+            }
+        }
+        let gr = one_ext(&base, "GR", c);
+        let st = one_ext(&base, "ST", c);
+        let pr = if n <= 120 { one_ext(&base, "PR", c) } else { (false, vec![], false) };
+        let id = if n <= 50 { one_ext(&base, "ID", c) } else { (false, vec![], false) };
+        let sst = if n <= 50 { one_ext(&base, "SST", c) } else { (false, vec![], false) };
+        let stg = if n <= 50 { one_ext(&base, "STG", c) } else { (false, vec![], false) };
         let att: Vec<Vec<usize>> = spec.att.iter().map(|(x, y)| vec![*x, *y]).collect();
         lines.push(json!({"ev": "cross", "n": n, "att": att, "args": sample, "statuses": per_sem,
             "gr": gr.1, "has_st": st.0, "st": st.1, "has_pr": pr.0, "pr": pr.1, "has_id": id.0, "id": id.1,
             "has_sst": sst.0, "sst": sst.1, "has_stg": stg.0, "stg": stg.1,
-            "panic": gr.2 || st.2 || pr.2 || id.2 || sst.2 || stg.2}).to_string());
+            "panic": gr.2 || st.2 || pr.2 || id.2 || sst.2 || stg.2, "enc_choice": c}).to_string());
+        }
         lines
     });
     util::write_lines(&out, res.into_iter().flatten());
